@@ -933,3 +933,222 @@ package p9p
 //@ requires t != nil && t.requests != nil && t.closed != nil && ctx != nil && msg != nil
 //@ chan requests: REQOK(m) && delivered(m) == 0 && !registered(m)
 //@ chan response: m != nil
+
+// ---------------------------------------------------------------- encoding.go: the 9P2000 wire format (C01 C04)
+//
+// The layout below is transcribed from the 9P2000 manual (intro(5), stat(5)); it is the specification, not a
+// description of the code. size[4] is added by the framing layer (channel.go), not by the codec. The per-kind
+// definitions are generated from the table in /verif/tools/gen_wiredef.py.
+
+//@ pure encStr(s string) Bytes = bcat(le2(len(s)), sbytes(s))
+//@ pure encQid(q Qid) Bytes = bcat(bcat(le1(q.Type), le4(q.Version)), le8(q.Path))
+//@ pure encData(d []byte) Bytes reads E:uint8 = bcat(le4(len(d)), bytes(d))
+// stat(5): size[2] type[2] dev[4] qid[13] mode[4] atime[4] mtime[4] length[8] name[s] uid[s] gid[s] muid[s]
+//@ pure encDirBody(d Dir) Bytes = bcat(bcat(bcat(bcat(bcat(bcat(bcat(bcat(bcat(bcat(le2(d.Type), le4(d.Dev)), encQid(d.Qid)), le4(d.Mode)), le4(unix(d.AccessTime))), le4(unix(d.ModTime))), le8(d.Length)), encStr(d.Name)), encStr(d.UID)), encStr(d.GID)), encStr(d.MUID))
+//@ pure dirLen(d Dir) int = 39 + 8 + len(d.Name) + len(d.UID) + len(d.GID) + len(d.MUID)
+//@ pure encDir(d Dir) Bytes = bcat(le2(dirLen(d)), encDirBody(d))
+// Rstat / Twstat carry stat[n]: n[2] followed by the n bytes of the stat record (which starts with its own size[2])
+//@ pure encStat(d Dir) Bytes = bcat(le2(dirLen(d) + 2), encDir(d))
+//@ pure repDir(d Dir) bool = len(d.Name) <= 65535 && len(d.UID) <= 65535 && len(d.GID) <= 65535 && len(d.MUID) <= 65535 && dirLen(d) + 2 <= 65535 && 0 <= unix(d.AccessTime) && unix(d.AccessTime) <= 4294967295 && 0 <= unix(d.ModTime) && unix(d.ModTime) <= 4294967295 && d.AccessTime == utc(unix(d.AccessTime)) && d.ModTime == utc(unix(d.ModTime))
+// nwname[2] nwname*(wname[s]) and nwqid[2] nwqid*(qid[13]): concatenation over the list, defined by recursion on the prefix length
+//@ pure namesUpto(s []string, n int) Bytes reads E:string
+//@ axiom [wiredef] names_0: forall s []string :: {namesUpto(s, 0)} namesUpto(s, 0) == bempty
+//@ axiom [wiredef] names_step: forall s []string, n int :: {namesUpto(s, n + 1)} 0 <= n && n < len(s) ==> namesUpto(s, n + 1) == bcat(namesUpto(s, n), encStr(s[n]))
+//@ pure encNames(s []string) Bytes reads E:string = bcat(le2(len(s)), namesUpto(s, len(s)))
+//@ pure repNames(s []string) bool reads E:string = len(s) <= 65535 && forall(j, 0, len(s), len(s[j]) <= 65535)
+//@ pure qidsUpto(s []Qid, n int) Bytes reads E:p9p.Qid
+//@ axiom [wiredef] qids_0: forall s []Qid :: {qidsUpto(s, 0)} qidsUpto(s, 0) == bempty
+//@ axiom [wiredef] qids_step: forall s []Qid, n int :: {qidsUpto(s, n + 1)} 0 <= n && n < len(s) ==> qidsUpto(s, n + 1) == bcat(qidsUpto(s, n), encQid(s[n]))
+//@ pure encQids(s []Qid) Bytes reads E:p9p.Qid = bcat(le2(len(s)), qidsUpto(s, len(s)))
+
+//@ pure hdr(f Fcall) Bytes = bcat(le1(kindOf(f.Message)), le2(f.Tag))
+//@ pure layout(f Fcall) Bytes reads E:uint8 E:string E:p9p.Qid
+//@ pure representable(f Fcall) bool reads E:string
+//@ axiom [wirekind] kind_Tversion: forall m Message :: {kindOf(m)} typeis(m, MessageTversion) <==> kindOf(m) == 100
+//@ axiom [wirekind] kind_Rversion: forall m Message :: {kindOf(m)} typeis(m, MessageRversion) <==> kindOf(m) == 101
+//@ axiom [wirekind] kind_Tauth: forall m Message :: {kindOf(m)} typeis(m, MessageTauth) <==> kindOf(m) == 102
+//@ axiom [wirekind] kind_Rauth: forall m Message :: {kindOf(m)} typeis(m, MessageRauth) <==> kindOf(m) == 103
+//@ axiom [wirekind] kind_Tattach: forall m Message :: {kindOf(m)} typeis(m, MessageTattach) <==> kindOf(m) == 104
+//@ axiom [wirekind] kind_Rattach: forall m Message :: {kindOf(m)} typeis(m, MessageRattach) <==> kindOf(m) == 105
+//@ axiom [wirekind] kind_Rerror: forall m Message :: {kindOf(m)} typeis(m, MessageRerror) <==> kindOf(m) == 107
+//@ axiom [wirekind] kind_Tflush: forall m Message :: {kindOf(m)} typeis(m, MessageTflush) <==> kindOf(m) == 108
+//@ axiom [wirekind] kind_Rflush: forall m Message :: {kindOf(m)} typeis(m, MessageRflush) <==> kindOf(m) == 109
+//@ axiom [wirekind] kind_Twalk: forall m Message :: {kindOf(m)} typeis(m, MessageTwalk) <==> kindOf(m) == 110
+//@ axiom [wirekind] kind_Rwalk: forall m Message :: {kindOf(m)} typeis(m, MessageRwalk) <==> kindOf(m) == 111
+//@ axiom [wirekind] kind_Topen: forall m Message :: {kindOf(m)} typeis(m, MessageTopen) <==> kindOf(m) == 112
+//@ axiom [wirekind] kind_Ropen: forall m Message :: {kindOf(m)} typeis(m, MessageRopen) <==> kindOf(m) == 113
+//@ axiom [wirekind] kind_Tcreate: forall m Message :: {kindOf(m)} typeis(m, MessageTcreate) <==> kindOf(m) == 114
+//@ axiom [wirekind] kind_Rcreate: forall m Message :: {kindOf(m)} typeis(m, MessageRcreate) <==> kindOf(m) == 115
+//@ axiom [wirekind] kind_Tread: forall m Message :: {kindOf(m)} typeis(m, MessageTread) <==> kindOf(m) == 116
+//@ axiom [wirekind] kind_Rread: forall m Message :: {kindOf(m)} typeis(m, MessageRread) <==> kindOf(m) == 117
+//@ axiom [wirekind] kind_Twrite: forall m Message :: {kindOf(m)} typeis(m, MessageTwrite) <==> kindOf(m) == 118
+//@ axiom [wirekind] kind_Rwrite: forall m Message :: {kindOf(m)} typeis(m, MessageRwrite) <==> kindOf(m) == 119
+//@ axiom [wirekind] kind_Tclunk: forall m Message :: {kindOf(m)} typeis(m, MessageTclunk) <==> kindOf(m) == 120
+//@ axiom [wirekind] kind_Rclunk: forall m Message :: {kindOf(m)} typeis(m, MessageRclunk) <==> kindOf(m) == 121
+//@ axiom [wirekind] kind_Tremove: forall m Message :: {kindOf(m)} typeis(m, MessageTremove) <==> kindOf(m) == 122
+//@ axiom [wirekind] kind_Rremove: forall m Message :: {kindOf(m)} typeis(m, MessageRremove) <==> kindOf(m) == 123
+//@ axiom [wirekind] kind_Tstat: forall m Message :: {kindOf(m)} typeis(m, MessageTstat) <==> kindOf(m) == 124
+//@ axiom [wirekind] kind_Rstat: forall m Message :: {kindOf(m)} typeis(m, MessageRstat) <==> kindOf(m) == 125
+//@ axiom [wirekind] kind_Twstat: forall m Message :: {kindOf(m)} typeis(m, MessageTwstat) <==> kindOf(m) == 126
+//@ axiom [wirekind] kind_Rwstat: forall m Message :: {kindOf(m)} typeis(m, MessageRwstat) <==> kindOf(m) == 127
+//@ axiom [wiredef] enc_Tversion: forall f Fcall :: {layout(f)} typeis(f.Message, MessageTversion) ==> layout(f) == bcat(bcat(bcat(bcat(bcat(bempty, le1(kindOf(f.Message))), le2(f.Tag)), le4(f.Message.(MessageTversion).MSize)), le2(len(f.Message.(MessageTversion).Version))), sbytes(f.Message.(MessageTversion).Version))
+//@ lemma [wiredefr from wirekind wiredef assoc_r bytes noassoc] [C01] encr_Tversion: forall f Fcall :: {layout(f)} typeis(f.Message, MessageTversion) ==> layout(f) == bcat(le1(kindOf(f.Message)), bcat(le2(f.Tag), bcat(le4(f.Message.(MessageTversion).MSize), bcat(le2(len(f.Message.(MessageTversion).Version)), sbytes(f.Message.(MessageTversion).Version)))))
+//@ axiom [wiredef] enc_Rversion: forall f Fcall :: {layout(f)} typeis(f.Message, MessageRversion) ==> layout(f) == bcat(bcat(bcat(bcat(bcat(bempty, le1(kindOf(f.Message))), le2(f.Tag)), le4(f.Message.(MessageRversion).MSize)), le2(len(f.Message.(MessageRversion).Version))), sbytes(f.Message.(MessageRversion).Version))
+//@ lemma [wiredefr from wirekind wiredef assoc_r bytes noassoc] [C01] encr_Rversion: forall f Fcall :: {layout(f)} typeis(f.Message, MessageRversion) ==> layout(f) == bcat(le1(kindOf(f.Message)), bcat(le2(f.Tag), bcat(le4(f.Message.(MessageRversion).MSize), bcat(le2(len(f.Message.(MessageRversion).Version)), sbytes(f.Message.(MessageRversion).Version)))))
+//@ axiom [wiredef] enc_Tauth: forall f Fcall :: {layout(f)} typeis(f.Message, MessageTauth) ==> layout(f) == bcat(bcat(bcat(bcat(bcat(bcat(bcat(bempty, le1(kindOf(f.Message))), le2(f.Tag)), le4(f.Message.(MessageTauth).Afid)), le2(len(f.Message.(MessageTauth).Uname))), sbytes(f.Message.(MessageTauth).Uname)), le2(len(f.Message.(MessageTauth).Aname))), sbytes(f.Message.(MessageTauth).Aname))
+//@ lemma [wiredefr from wirekind wiredef assoc_r bytes noassoc] [C01] encr_Tauth: forall f Fcall :: {layout(f)} typeis(f.Message, MessageTauth) ==> layout(f) == bcat(le1(kindOf(f.Message)), bcat(le2(f.Tag), bcat(le4(f.Message.(MessageTauth).Afid), bcat(le2(len(f.Message.(MessageTauth).Uname)), bcat(sbytes(f.Message.(MessageTauth).Uname), bcat(le2(len(f.Message.(MessageTauth).Aname)), sbytes(f.Message.(MessageTauth).Aname)))))))
+//@ axiom [wiredef] enc_Rauth: forall f Fcall :: {layout(f)} typeis(f.Message, MessageRauth) ==> layout(f) == bcat(bcat(bcat(bcat(bcat(bempty, le1(kindOf(f.Message))), le2(f.Tag)), le1(f.Message.(MessageRauth).Qid.Type)), le4(f.Message.(MessageRauth).Qid.Version)), le8(f.Message.(MessageRauth).Qid.Path))
+//@ lemma [wiredefr from wirekind wiredef assoc_r bytes noassoc] [C01] encr_Rauth: forall f Fcall :: {layout(f)} typeis(f.Message, MessageRauth) ==> layout(f) == bcat(le1(kindOf(f.Message)), bcat(le2(f.Tag), bcat(le1(f.Message.(MessageRauth).Qid.Type), bcat(le4(f.Message.(MessageRauth).Qid.Version), le8(f.Message.(MessageRauth).Qid.Path)))))
+//@ axiom [wiredef] enc_Tattach: forall f Fcall :: {layout(f)} typeis(f.Message, MessageTattach) ==> layout(f) == bcat(bcat(bcat(bcat(bcat(bcat(bcat(bcat(bempty, le1(kindOf(f.Message))), le2(f.Tag)), le4(f.Message.(MessageTattach).Fid)), le4(f.Message.(MessageTattach).Afid)), le2(len(f.Message.(MessageTattach).Uname))), sbytes(f.Message.(MessageTattach).Uname)), le2(len(f.Message.(MessageTattach).Aname))), sbytes(f.Message.(MessageTattach).Aname))
+//@ lemma [wiredefr from wirekind wiredef assoc_r bytes noassoc] [C01] encr_Tattach: forall f Fcall :: {layout(f)} typeis(f.Message, MessageTattach) ==> layout(f) == bcat(le1(kindOf(f.Message)), bcat(le2(f.Tag), bcat(le4(f.Message.(MessageTattach).Fid), bcat(le4(f.Message.(MessageTattach).Afid), bcat(le2(len(f.Message.(MessageTattach).Uname)), bcat(sbytes(f.Message.(MessageTattach).Uname), bcat(le2(len(f.Message.(MessageTattach).Aname)), sbytes(f.Message.(MessageTattach).Aname))))))))
+//@ axiom [wiredef] enc_Rattach: forall f Fcall :: {layout(f)} typeis(f.Message, MessageRattach) ==> layout(f) == bcat(bcat(bcat(bcat(bcat(bempty, le1(kindOf(f.Message))), le2(f.Tag)), le1(f.Message.(MessageRattach).Qid.Type)), le4(f.Message.(MessageRattach).Qid.Version)), le8(f.Message.(MessageRattach).Qid.Path))
+//@ lemma [wiredefr from wirekind wiredef assoc_r bytes noassoc] [C01] encr_Rattach: forall f Fcall :: {layout(f)} typeis(f.Message, MessageRattach) ==> layout(f) == bcat(le1(kindOf(f.Message)), bcat(le2(f.Tag), bcat(le1(f.Message.(MessageRattach).Qid.Type), bcat(le4(f.Message.(MessageRattach).Qid.Version), le8(f.Message.(MessageRattach).Qid.Path)))))
+//@ axiom [wiredef] enc_Rerror: forall f Fcall :: {layout(f)} typeis(f.Message, MessageRerror) ==> layout(f) == bcat(bcat(bcat(bcat(bempty, le1(kindOf(f.Message))), le2(f.Tag)), le2(len(f.Message.(MessageRerror).Ename))), sbytes(f.Message.(MessageRerror).Ename))
+//@ lemma [wiredefr from wirekind wiredef assoc_r bytes noassoc] [C01] encr_Rerror: forall f Fcall :: {layout(f)} typeis(f.Message, MessageRerror) ==> layout(f) == bcat(le1(kindOf(f.Message)), bcat(le2(f.Tag), bcat(le2(len(f.Message.(MessageRerror).Ename)), sbytes(f.Message.(MessageRerror).Ename))))
+//@ axiom [wiredef] enc_Tflush: forall f Fcall :: {layout(f)} typeis(f.Message, MessageTflush) ==> layout(f) == bcat(bcat(bcat(bempty, le1(kindOf(f.Message))), le2(f.Tag)), le2(f.Message.(MessageTflush).Oldtag))
+//@ lemma [wiredefr from wirekind wiredef assoc_r bytes noassoc] [C01] encr_Tflush: forall f Fcall :: {layout(f)} typeis(f.Message, MessageTflush) ==> layout(f) == bcat(le1(kindOf(f.Message)), bcat(le2(f.Tag), le2(f.Message.(MessageTflush).Oldtag)))
+//@ axiom [wiredef] enc_Rflush: forall f Fcall :: {layout(f)} typeis(f.Message, MessageRflush) ==> layout(f) == bcat(bcat(bempty, le1(kindOf(f.Message))), le2(f.Tag))
+//@ lemma [wiredefr from wirekind wiredef assoc_r bytes noassoc] [C01] encr_Rflush: forall f Fcall :: {layout(f)} typeis(f.Message, MessageRflush) ==> layout(f) == bcat(le1(kindOf(f.Message)), le2(f.Tag))
+//@ axiom [wiredef] enc_Twalk: forall f Fcall :: {layout(f)} typeis(f.Message, MessageTwalk) ==> layout(f) == bcat(bcat(bcat(bcat(bcat(bcat(bempty, le1(kindOf(f.Message))), le2(f.Tag)), le4(f.Message.(MessageTwalk).Fid)), le4(f.Message.(MessageTwalk).Newfid)), le2(len(f.Message.(MessageTwalk).Wnames))), namesUpto(f.Message.(MessageTwalk).Wnames, len(f.Message.(MessageTwalk).Wnames)))
+//@ lemma [wiredefr from wirekind wiredef assoc_r bytes noassoc] [C01] encr_Twalk: forall f Fcall :: {layout(f)} typeis(f.Message, MessageTwalk) ==> layout(f) == bcat(le1(kindOf(f.Message)), bcat(le2(f.Tag), bcat(le4(f.Message.(MessageTwalk).Fid), bcat(le4(f.Message.(MessageTwalk).Newfid), bcat(le2(len(f.Message.(MessageTwalk).Wnames)), namesUpto(f.Message.(MessageTwalk).Wnames, len(f.Message.(MessageTwalk).Wnames)))))))
+//@ axiom [wiredef] enc_Rwalk: forall f Fcall :: {layout(f)} typeis(f.Message, MessageRwalk) ==> layout(f) == bcat(bcat(bcat(bcat(bempty, le1(kindOf(f.Message))), le2(f.Tag)), le2(len(f.Message.(MessageRwalk).Qids))), qidsUpto(f.Message.(MessageRwalk).Qids, len(f.Message.(MessageRwalk).Qids)))
+//@ lemma [wiredefr from wirekind wiredef assoc_r bytes noassoc] [C01] encr_Rwalk: forall f Fcall :: {layout(f)} typeis(f.Message, MessageRwalk) ==> layout(f) == bcat(le1(kindOf(f.Message)), bcat(le2(f.Tag), bcat(le2(len(f.Message.(MessageRwalk).Qids)), qidsUpto(f.Message.(MessageRwalk).Qids, len(f.Message.(MessageRwalk).Qids)))))
+//@ axiom [wiredef] enc_Topen: forall f Fcall :: {layout(f)} typeis(f.Message, MessageTopen) ==> layout(f) == bcat(bcat(bcat(bcat(bempty, le1(kindOf(f.Message))), le2(f.Tag)), le4(f.Message.(MessageTopen).Fid)), le1(f.Message.(MessageTopen).Mode))
+//@ lemma [wiredefr from wirekind wiredef assoc_r bytes noassoc] [C01] encr_Topen: forall f Fcall :: {layout(f)} typeis(f.Message, MessageTopen) ==> layout(f) == bcat(le1(kindOf(f.Message)), bcat(le2(f.Tag), bcat(le4(f.Message.(MessageTopen).Fid), le1(f.Message.(MessageTopen).Mode))))
+//@ axiom [wiredef] enc_Ropen: forall f Fcall :: {layout(f)} typeis(f.Message, MessageRopen) ==> layout(f) == bcat(bcat(bcat(bcat(bcat(bcat(bempty, le1(kindOf(f.Message))), le2(f.Tag)), le1(f.Message.(MessageRopen).Qid.Type)), le4(f.Message.(MessageRopen).Qid.Version)), le8(f.Message.(MessageRopen).Qid.Path)), le4(f.Message.(MessageRopen).IOUnit))
+//@ lemma [wiredefr from wirekind wiredef assoc_r bytes noassoc] [C01] encr_Ropen: forall f Fcall :: {layout(f)} typeis(f.Message, MessageRopen) ==> layout(f) == bcat(le1(kindOf(f.Message)), bcat(le2(f.Tag), bcat(le1(f.Message.(MessageRopen).Qid.Type), bcat(le4(f.Message.(MessageRopen).Qid.Version), bcat(le8(f.Message.(MessageRopen).Qid.Path), le4(f.Message.(MessageRopen).IOUnit))))))
+//@ axiom [wiredef] enc_Tcreate: forall f Fcall :: {layout(f)} typeis(f.Message, MessageTcreate) ==> layout(f) == bcat(bcat(bcat(bcat(bcat(bcat(bcat(bempty, le1(kindOf(f.Message))), le2(f.Tag)), le4(f.Message.(MessageTcreate).Fid)), le2(len(f.Message.(MessageTcreate).Name))), sbytes(f.Message.(MessageTcreate).Name)), le4(f.Message.(MessageTcreate).Perm)), le1(f.Message.(MessageTcreate).Mode))
+//@ lemma [wiredefr from wirekind wiredef assoc_r bytes noassoc] [C01] encr_Tcreate: forall f Fcall :: {layout(f)} typeis(f.Message, MessageTcreate) ==> layout(f) == bcat(le1(kindOf(f.Message)), bcat(le2(f.Tag), bcat(le4(f.Message.(MessageTcreate).Fid), bcat(le2(len(f.Message.(MessageTcreate).Name)), bcat(sbytes(f.Message.(MessageTcreate).Name), bcat(le4(f.Message.(MessageTcreate).Perm), le1(f.Message.(MessageTcreate).Mode)))))))
+//@ axiom [wiredef] enc_Rcreate: forall f Fcall :: {layout(f)} typeis(f.Message, MessageRcreate) ==> layout(f) == bcat(bcat(bcat(bcat(bcat(bcat(bempty, le1(kindOf(f.Message))), le2(f.Tag)), le1(f.Message.(MessageRcreate).Qid.Type)), le4(f.Message.(MessageRcreate).Qid.Version)), le8(f.Message.(MessageRcreate).Qid.Path)), le4(f.Message.(MessageRcreate).IOUnit))
+//@ lemma [wiredefr from wirekind wiredef assoc_r bytes noassoc] [C01] encr_Rcreate: forall f Fcall :: {layout(f)} typeis(f.Message, MessageRcreate) ==> layout(f) == bcat(le1(kindOf(f.Message)), bcat(le2(f.Tag), bcat(le1(f.Message.(MessageRcreate).Qid.Type), bcat(le4(f.Message.(MessageRcreate).Qid.Version), bcat(le8(f.Message.(MessageRcreate).Qid.Path), le4(f.Message.(MessageRcreate).IOUnit))))))
+//@ axiom [wiredef] enc_Tread: forall f Fcall :: {layout(f)} typeis(f.Message, MessageTread) ==> layout(f) == bcat(bcat(bcat(bcat(bcat(bempty, le1(kindOf(f.Message))), le2(f.Tag)), le4(f.Message.(MessageTread).Fid)), le8(f.Message.(MessageTread).Offset)), le4(f.Message.(MessageTread).Count))
+//@ lemma [wiredefr from wirekind wiredef assoc_r bytes noassoc] [C01] encr_Tread: forall f Fcall :: {layout(f)} typeis(f.Message, MessageTread) ==> layout(f) == bcat(le1(kindOf(f.Message)), bcat(le2(f.Tag), bcat(le4(f.Message.(MessageTread).Fid), bcat(le8(f.Message.(MessageTread).Offset), le4(f.Message.(MessageTread).Count)))))
+//@ axiom [wiredef] enc_Rread: forall f Fcall :: {layout(f)} typeis(f.Message, MessageRread) ==> layout(f) == bcat(bcat(bcat(bcat(bempty, le1(kindOf(f.Message))), le2(f.Tag)), le4(len(f.Message.(MessageRread).Data))), bytes(f.Message.(MessageRread).Data))
+//@ lemma [wiredefr from wirekind wiredef assoc_r bytes noassoc] [C01] encr_Rread: forall f Fcall :: {layout(f)} typeis(f.Message, MessageRread) ==> layout(f) == bcat(le1(kindOf(f.Message)), bcat(le2(f.Tag), bcat(le4(len(f.Message.(MessageRread).Data)), bytes(f.Message.(MessageRread).Data))))
+//@ axiom [wiredef] enc_Twrite: forall f Fcall :: {layout(f)} typeis(f.Message, MessageTwrite) ==> layout(f) == bcat(bcat(bcat(bcat(bcat(bcat(bempty, le1(kindOf(f.Message))), le2(f.Tag)), le4(f.Message.(MessageTwrite).Fid)), le8(f.Message.(MessageTwrite).Offset)), le4(len(f.Message.(MessageTwrite).Data))), bytes(f.Message.(MessageTwrite).Data))
+//@ lemma [wiredefr from wirekind wiredef assoc_r bytes noassoc] [C01] encr_Twrite: forall f Fcall :: {layout(f)} typeis(f.Message, MessageTwrite) ==> layout(f) == bcat(le1(kindOf(f.Message)), bcat(le2(f.Tag), bcat(le4(f.Message.(MessageTwrite).Fid), bcat(le8(f.Message.(MessageTwrite).Offset), bcat(le4(len(f.Message.(MessageTwrite).Data)), bytes(f.Message.(MessageTwrite).Data))))))
+//@ axiom [wiredef] enc_Rwrite: forall f Fcall :: {layout(f)} typeis(f.Message, MessageRwrite) ==> layout(f) == bcat(bcat(bcat(bempty, le1(kindOf(f.Message))), le2(f.Tag)), le4(f.Message.(MessageRwrite).Count))
+//@ lemma [wiredefr from wirekind wiredef assoc_r bytes noassoc] [C01] encr_Rwrite: forall f Fcall :: {layout(f)} typeis(f.Message, MessageRwrite) ==> layout(f) == bcat(le1(kindOf(f.Message)), bcat(le2(f.Tag), le4(f.Message.(MessageRwrite).Count)))
+//@ axiom [wiredef] enc_Tclunk: forall f Fcall :: {layout(f)} typeis(f.Message, MessageTclunk) ==> layout(f) == bcat(bcat(bcat(bempty, le1(kindOf(f.Message))), le2(f.Tag)), le4(f.Message.(MessageTclunk).Fid))
+//@ lemma [wiredefr from wirekind wiredef assoc_r bytes noassoc] [C01] encr_Tclunk: forall f Fcall :: {layout(f)} typeis(f.Message, MessageTclunk) ==> layout(f) == bcat(le1(kindOf(f.Message)), bcat(le2(f.Tag), le4(f.Message.(MessageTclunk).Fid)))
+//@ axiom [wiredef] enc_Rclunk: forall f Fcall :: {layout(f)} typeis(f.Message, MessageRclunk) ==> layout(f) == bcat(bcat(bempty, le1(kindOf(f.Message))), le2(f.Tag))
+//@ lemma [wiredefr from wirekind wiredef assoc_r bytes noassoc] [C01] encr_Rclunk: forall f Fcall :: {layout(f)} typeis(f.Message, MessageRclunk) ==> layout(f) == bcat(le1(kindOf(f.Message)), le2(f.Tag))
+//@ axiom [wiredef] enc_Tremove: forall f Fcall :: {layout(f)} typeis(f.Message, MessageTremove) ==> layout(f) == bcat(bcat(bcat(bempty, le1(kindOf(f.Message))), le2(f.Tag)), le4(f.Message.(MessageTremove).Fid))
+//@ lemma [wiredefr from wirekind wiredef assoc_r bytes noassoc] [C01] encr_Tremove: forall f Fcall :: {layout(f)} typeis(f.Message, MessageTremove) ==> layout(f) == bcat(le1(kindOf(f.Message)), bcat(le2(f.Tag), le4(f.Message.(MessageTremove).Fid)))
+//@ axiom [wiredef] enc_Rremove: forall f Fcall :: {layout(f)} typeis(f.Message, MessageRremove) ==> layout(f) == bcat(bcat(bempty, le1(kindOf(f.Message))), le2(f.Tag))
+//@ lemma [wiredefr from wirekind wiredef assoc_r bytes noassoc] [C01] encr_Rremove: forall f Fcall :: {layout(f)} typeis(f.Message, MessageRremove) ==> layout(f) == bcat(le1(kindOf(f.Message)), le2(f.Tag))
+//@ axiom [wiredef] enc_Tstat: forall f Fcall :: {layout(f)} typeis(f.Message, MessageTstat) ==> layout(f) == bcat(bcat(bcat(bempty, le1(kindOf(f.Message))), le2(f.Tag)), le4(f.Message.(MessageTstat).Fid))
+//@ lemma [wiredefr from wirekind wiredef assoc_r bytes noassoc] [C01] encr_Tstat: forall f Fcall :: {layout(f)} typeis(f.Message, MessageTstat) ==> layout(f) == bcat(le1(kindOf(f.Message)), bcat(le2(f.Tag), le4(f.Message.(MessageTstat).Fid)))
+//@ axiom [wiredef] enc_Rstat: forall f Fcall :: {layout(f)} typeis(f.Message, MessageRstat) ==> layout(f) == bcat(bcat(bcat(bcat(bcat(bcat(bcat(bcat(bcat(bcat(bcat(bcat(bcat(bcat(bcat(bcat(bcat(bcat(bcat(bcat(bcat(bempty, le1(kindOf(f.Message))), le2(f.Tag)), le2(dirLen(f.Message.(MessageRstat).Stat) + 2)), le2(dirLen(f.Message.(MessageRstat).Stat))), le2(f.Message.(MessageRstat).Stat.Type)), le4(f.Message.(MessageRstat).Stat.Dev)), le1(f.Message.(MessageRstat).Stat.Qid.Type)), le4(f.Message.(MessageRstat).Stat.Qid.Version)), le8(f.Message.(MessageRstat).Stat.Qid.Path)), le4(f.Message.(MessageRstat).Stat.Mode)), le4(unix(f.Message.(MessageRstat).Stat.AccessTime))), le4(unix(f.Message.(MessageRstat).Stat.ModTime))), le8(f.Message.(MessageRstat).Stat.Length)), le2(len(f.Message.(MessageRstat).Stat.Name))), sbytes(f.Message.(MessageRstat).Stat.Name)), le2(len(f.Message.(MessageRstat).Stat.UID))), sbytes(f.Message.(MessageRstat).Stat.UID)), le2(len(f.Message.(MessageRstat).Stat.GID))), sbytes(f.Message.(MessageRstat).Stat.GID)), le2(len(f.Message.(MessageRstat).Stat.MUID))), sbytes(f.Message.(MessageRstat).Stat.MUID))
+//@ lemma [wiredefr from wirekind wiredef assoc_r bytes noassoc] [C01] encr_Rstat: forall f Fcall :: {layout(f)} typeis(f.Message, MessageRstat) ==> layout(f) == bcat(le1(kindOf(f.Message)), bcat(le2(f.Tag), bcat(le2(dirLen(f.Message.(MessageRstat).Stat) + 2), bcat(le2(dirLen(f.Message.(MessageRstat).Stat)), bcat(le2(f.Message.(MessageRstat).Stat.Type), bcat(le4(f.Message.(MessageRstat).Stat.Dev), bcat(le1(f.Message.(MessageRstat).Stat.Qid.Type), bcat(le4(f.Message.(MessageRstat).Stat.Qid.Version), bcat(le8(f.Message.(MessageRstat).Stat.Qid.Path), bcat(le4(f.Message.(MessageRstat).Stat.Mode), bcat(le4(unix(f.Message.(MessageRstat).Stat.AccessTime)), bcat(le4(unix(f.Message.(MessageRstat).Stat.ModTime)), bcat(le8(f.Message.(MessageRstat).Stat.Length), bcat(le2(len(f.Message.(MessageRstat).Stat.Name)), bcat(sbytes(f.Message.(MessageRstat).Stat.Name), bcat(le2(len(f.Message.(MessageRstat).Stat.UID)), bcat(sbytes(f.Message.(MessageRstat).Stat.UID), bcat(le2(len(f.Message.(MessageRstat).Stat.GID)), bcat(sbytes(f.Message.(MessageRstat).Stat.GID), bcat(le2(len(f.Message.(MessageRstat).Stat.MUID)), sbytes(f.Message.(MessageRstat).Stat.MUID)))))))))))))))))))))
+//@ axiom [wiredef] enc_Twstat: forall f Fcall :: {layout(f)} typeis(f.Message, MessageTwstat) ==> layout(f) == bcat(bcat(bcat(bcat(bcat(bcat(bcat(bcat(bcat(bcat(bcat(bcat(bcat(bcat(bcat(bcat(bcat(bcat(bcat(bcat(bcat(bcat(bempty, le1(kindOf(f.Message))), le2(f.Tag)), le4(f.Message.(MessageTwstat).Fid)), le2(dirLen(f.Message.(MessageTwstat).Stat) + 2)), le2(dirLen(f.Message.(MessageTwstat).Stat))), le2(f.Message.(MessageTwstat).Stat.Type)), le4(f.Message.(MessageTwstat).Stat.Dev)), le1(f.Message.(MessageTwstat).Stat.Qid.Type)), le4(f.Message.(MessageTwstat).Stat.Qid.Version)), le8(f.Message.(MessageTwstat).Stat.Qid.Path)), le4(f.Message.(MessageTwstat).Stat.Mode)), le4(unix(f.Message.(MessageTwstat).Stat.AccessTime))), le4(unix(f.Message.(MessageTwstat).Stat.ModTime))), le8(f.Message.(MessageTwstat).Stat.Length)), le2(len(f.Message.(MessageTwstat).Stat.Name))), sbytes(f.Message.(MessageTwstat).Stat.Name)), le2(len(f.Message.(MessageTwstat).Stat.UID))), sbytes(f.Message.(MessageTwstat).Stat.UID)), le2(len(f.Message.(MessageTwstat).Stat.GID))), sbytes(f.Message.(MessageTwstat).Stat.GID)), le2(len(f.Message.(MessageTwstat).Stat.MUID))), sbytes(f.Message.(MessageTwstat).Stat.MUID))
+//@ lemma [wiredefr from wirekind wiredef assoc_r bytes noassoc] [C01] encr_Twstat: forall f Fcall :: {layout(f)} typeis(f.Message, MessageTwstat) ==> layout(f) == bcat(le1(kindOf(f.Message)), bcat(le2(f.Tag), bcat(le4(f.Message.(MessageTwstat).Fid), bcat(le2(dirLen(f.Message.(MessageTwstat).Stat) + 2), bcat(le2(dirLen(f.Message.(MessageTwstat).Stat)), bcat(le2(f.Message.(MessageTwstat).Stat.Type), bcat(le4(f.Message.(MessageTwstat).Stat.Dev), bcat(le1(f.Message.(MessageTwstat).Stat.Qid.Type), bcat(le4(f.Message.(MessageTwstat).Stat.Qid.Version), bcat(le8(f.Message.(MessageTwstat).Stat.Qid.Path), bcat(le4(f.Message.(MessageTwstat).Stat.Mode), bcat(le4(unix(f.Message.(MessageTwstat).Stat.AccessTime)), bcat(le4(unix(f.Message.(MessageTwstat).Stat.ModTime)), bcat(le8(f.Message.(MessageTwstat).Stat.Length), bcat(le2(len(f.Message.(MessageTwstat).Stat.Name)), bcat(sbytes(f.Message.(MessageTwstat).Stat.Name), bcat(le2(len(f.Message.(MessageTwstat).Stat.UID)), bcat(sbytes(f.Message.(MessageTwstat).Stat.UID), bcat(le2(len(f.Message.(MessageTwstat).Stat.GID)), bcat(sbytes(f.Message.(MessageTwstat).Stat.GID), bcat(le2(len(f.Message.(MessageTwstat).Stat.MUID)), sbytes(f.Message.(MessageTwstat).Stat.MUID))))))))))))))))))))))
+//@ axiom [wiredef] enc_Rwstat: forall f Fcall :: {layout(f)} typeis(f.Message, MessageRwstat) ==> layout(f) == bcat(bcat(bempty, le1(kindOf(f.Message))), le2(f.Tag))
+//@ lemma [wiredefr from wirekind wiredef assoc_r bytes noassoc] [C01] encr_Rwstat: forall f Fcall :: {layout(f)} typeis(f.Message, MessageRwstat) ==> layout(f) == bcat(le1(kindOf(f.Message)), le2(f.Tag))
+//@ axiom [wirekind] rep_Tversion: forall f Fcall :: {representable(f)} typeis(f.Message, MessageTversion) ==> (representable(f) <==> len(f.Message.(MessageTversion).Version) <= 65535)
+//@ axiom [wirekind] rep_Rversion: forall f Fcall :: {representable(f)} typeis(f.Message, MessageRversion) ==> (representable(f) <==> len(f.Message.(MessageRversion).Version) <= 65535)
+//@ axiom [wirekind] rep_Tauth: forall f Fcall :: {representable(f)} typeis(f.Message, MessageTauth) ==> (representable(f) <==> len(f.Message.(MessageTauth).Uname) <= 65535 && len(f.Message.(MessageTauth).Aname) <= 65535)
+//@ axiom [wirekind] rep_Rauth: forall f Fcall :: {representable(f)} typeis(f.Message, MessageRauth) ==> (representable(f) <==> true)
+//@ axiom [wirekind] rep_Tattach: forall f Fcall :: {representable(f)} typeis(f.Message, MessageTattach) ==> (representable(f) <==> len(f.Message.(MessageTattach).Uname) <= 65535 && len(f.Message.(MessageTattach).Aname) <= 65535)
+//@ axiom [wirekind] rep_Rattach: forall f Fcall :: {representable(f)} typeis(f.Message, MessageRattach) ==> (representable(f) <==> true)
+//@ axiom [wirekind] rep_Rerror: forall f Fcall :: {representable(f)} typeis(f.Message, MessageRerror) ==> (representable(f) <==> len(f.Message.(MessageRerror).Ename) <= 65535)
+//@ axiom [wirekind] rep_Tflush: forall f Fcall :: {representable(f)} typeis(f.Message, MessageTflush) ==> (representable(f) <==> true)
+//@ axiom [wirekind] rep_Rflush: forall f Fcall :: {representable(f)} typeis(f.Message, MessageRflush) ==> (representable(f) <==> true)
+//@ axiom [wirekind] rep_Twalk: forall f Fcall :: {representable(f)} typeis(f.Message, MessageTwalk) ==> (representable(f) <==> repNames(f.Message.(MessageTwalk).Wnames))
+//@ axiom [wirekind] rep_Rwalk: forall f Fcall :: {representable(f)} typeis(f.Message, MessageRwalk) ==> (representable(f) <==> len(f.Message.(MessageRwalk).Qids) <= 65535)
+//@ axiom [wirekind] rep_Topen: forall f Fcall :: {representable(f)} typeis(f.Message, MessageTopen) ==> (representable(f) <==> true)
+//@ axiom [wirekind] rep_Ropen: forall f Fcall :: {representable(f)} typeis(f.Message, MessageRopen) ==> (representable(f) <==> true)
+//@ axiom [wirekind] rep_Tcreate: forall f Fcall :: {representable(f)} typeis(f.Message, MessageTcreate) ==> (representable(f) <==> len(f.Message.(MessageTcreate).Name) <= 65535)
+//@ axiom [wirekind] rep_Rcreate: forall f Fcall :: {representable(f)} typeis(f.Message, MessageRcreate) ==> (representable(f) <==> true)
+//@ axiom [wirekind] rep_Tread: forall f Fcall :: {representable(f)} typeis(f.Message, MessageTread) ==> (representable(f) <==> true)
+//@ axiom [wirekind] rep_Rread: forall f Fcall :: {representable(f)} typeis(f.Message, MessageRread) ==> (representable(f) <==> len(f.Message.(MessageRread).Data) <= 4294967295)
+//@ axiom [wirekind] rep_Twrite: forall f Fcall :: {representable(f)} typeis(f.Message, MessageTwrite) ==> (representable(f) <==> len(f.Message.(MessageTwrite).Data) <= 4294967295)
+//@ axiom [wirekind] rep_Rwrite: forall f Fcall :: {representable(f)} typeis(f.Message, MessageRwrite) ==> (representable(f) <==> true)
+//@ axiom [wirekind] rep_Tclunk: forall f Fcall :: {representable(f)} typeis(f.Message, MessageTclunk) ==> (representable(f) <==> true)
+//@ axiom [wirekind] rep_Rclunk: forall f Fcall :: {representable(f)} typeis(f.Message, MessageRclunk) ==> (representable(f) <==> true)
+//@ axiom [wirekind] rep_Tremove: forall f Fcall :: {representable(f)} typeis(f.Message, MessageTremove) ==> (representable(f) <==> true)
+//@ axiom [wirekind] rep_Rremove: forall f Fcall :: {representable(f)} typeis(f.Message, MessageRremove) ==> (representable(f) <==> true)
+//@ axiom [wirekind] rep_Tstat: forall f Fcall :: {representable(f)} typeis(f.Message, MessageTstat) ==> (representable(f) <==> true)
+//@ axiom [wirekind] rep_Rstat: forall f Fcall :: {representable(f)} typeis(f.Message, MessageRstat) ==> (representable(f) <==> repDir(f.Message.(MessageRstat).Stat))
+//@ axiom [wirekind] rep_Twstat: forall f Fcall :: {representable(f)} typeis(f.Message, MessageTwstat) ==> (representable(f) <==> repDir(f.Message.(MessageTwstat).Stat))
+//@ axiom [wirekind] rep_Rwstat: forall f Fcall :: {representable(f)} typeis(f.Message, MessageRwstat) ==> (representable(f) <==> true)
+
+//@ func (*encoder).encode
+//@ inline
+//@ recursion 16
+
+//@ func size9p
+//@ inline
+//@ recursion 16
+
+//@ func (*decoder).decode
+//@ inline
+//@ recursion 16
+
+//@ func (codec9p).Marshal
+//@ property C01
+//@ use wirekind wiredef bytes noassoc
+//@ foreach MessageTversion MessageRversion MessageTauth MessageRauth MessageTattach MessageRattach MessageRerror MessageTflush MessageRflush MessageTopen MessageRopen MessageTcreate MessageRcreate MessageTread MessageRread MessageTwrite MessageRwrite MessageTclunk MessageRclunk MessageTremove MessageRremove MessageTstat MessageRstat MessageTwstat MessageRwstat
+//@ dyn v : *Fcall
+//@ dyn v.Message : $K
+//@ let F = (*v.(*Fcall))
+//@ requires F.Type == kindOf(F.Message) && representable(F)
+//@ ensures layout: err == nil && bytes(result0) == old(layout(F))
+
+//@ func (codec9p).Size
+//@ property C01
+//@ use wirekind wiredef bytes noassoc
+//@ foreach MessageTversion MessageRversion MessageTauth MessageRauth MessageTattach MessageRattach MessageRerror MessageTflush MessageRflush MessageTopen MessageRopen MessageTcreate MessageRcreate MessageTread MessageRread MessageTwrite MessageRwrite MessageTclunk MessageRclunk MessageTremove MessageRremove MessageTstat MessageRstat MessageTwstat MessageRwstat
+//@ dyn v : *Fcall
+//@ dyn v.Message : $K
+//@ let F = (*v.(*Fcall))
+//@ requires representable(F) && blen(layout(F)) < 4294967296
+//@ ensures size: result == blen(layout(F))
+//@ ensures frame: preserved("E:uint8")
+
+// Round trip: decoding the manual's layout of any representable message f yields f. f is a logical variable
+// (universally quantified); slices are compared by content, everything else by value.
+//@ func (codec9p).Unmarshal
+//@ property C01
+//@ use wirekind wiredefr bytes noassoc
+//@ prune
+//@ foreach MessageTversion MessageRversion MessageTauth MessageRauth MessageTattach MessageRattach MessageRerror MessageTflush MessageRflush MessageTopen MessageRopen MessageTcreate MessageRcreate MessageTread MessageRread MessageTwrite MessageRwrite MessageTclunk MessageRclunk MessageTremove MessageRremove MessageTstat MessageRstat MessageTwstat MessageRwstat
+//@ logical f Fcall
+//@ dyn v : *Fcall
+//@ dyn f.Message : $K
+//@ let V = (*v.(*Fcall))
+//@ requires v.(*Fcall) != nil
+//@ requires bytes(data) == layout(f) && f.Type == kindOf(f.Message) && representable(f)
+//@ ensures accepted: err == nil
+//@ ensures roundtrip_header: V.Type == f.Type && V.Tag == f.Tag
+//@ ensures roundtrip_plain: !typeis(f.Message, MessageTwrite) && !typeis(f.Message, MessageRread) && !typeis(f.Message, MessageRstat) && !typeis(f.Message, MessageTwstat) ==> V.Message == f.Message
+//@ ensures roundtrip_Rstat_kind: typeis(f.Message, MessageRstat) ==> typeis(V.Message, MessageRstat)
+//@ ensures roundtrip_Rstat_Type: typeis(f.Message, MessageRstat) ==> V.Message.(MessageRstat).Stat.Type == f.Message.(MessageRstat).Stat.Type
+//@ ensures roundtrip_Rstat_Dev: typeis(f.Message, MessageRstat) ==> V.Message.(MessageRstat).Stat.Dev == f.Message.(MessageRstat).Stat.Dev
+//@ ensures roundtrip_Rstat_QidType: typeis(f.Message, MessageRstat) ==> V.Message.(MessageRstat).Stat.Qid.Type == f.Message.(MessageRstat).Stat.Qid.Type
+//@ ensures roundtrip_Rstat_QidVersion: typeis(f.Message, MessageRstat) ==> V.Message.(MessageRstat).Stat.Qid.Version == f.Message.(MessageRstat).Stat.Qid.Version
+//@ ensures roundtrip_Rstat_QidPath: typeis(f.Message, MessageRstat) ==> V.Message.(MessageRstat).Stat.Qid.Path == f.Message.(MessageRstat).Stat.Qid.Path
+//@ ensures roundtrip_Rstat_Mode: typeis(f.Message, MessageRstat) ==> V.Message.(MessageRstat).Stat.Mode == f.Message.(MessageRstat).Stat.Mode
+//@ ensures roundtrip_Rstat_AccessTime: typeis(f.Message, MessageRstat) ==> V.Message.(MessageRstat).Stat.AccessTime == f.Message.(MessageRstat).Stat.AccessTime
+//@ ensures roundtrip_Rstat_ModTime: typeis(f.Message, MessageRstat) ==> V.Message.(MessageRstat).Stat.ModTime == f.Message.(MessageRstat).Stat.ModTime
+//@ ensures roundtrip_Rstat_Length: typeis(f.Message, MessageRstat) ==> V.Message.(MessageRstat).Stat.Length == f.Message.(MessageRstat).Stat.Length
+//@ ensures roundtrip_Rstat_Name: typeis(f.Message, MessageRstat) ==> V.Message.(MessageRstat).Stat.Name == f.Message.(MessageRstat).Stat.Name
+//@ ensures roundtrip_Rstat_UID: typeis(f.Message, MessageRstat) ==> V.Message.(MessageRstat).Stat.UID == f.Message.(MessageRstat).Stat.UID
+//@ ensures roundtrip_Rstat_GID: typeis(f.Message, MessageRstat) ==> V.Message.(MessageRstat).Stat.GID == f.Message.(MessageRstat).Stat.GID
+//@ ensures roundtrip_Rstat_MUID: typeis(f.Message, MessageRstat) ==> V.Message.(MessageRstat).Stat.MUID == f.Message.(MessageRstat).Stat.MUID
+//@ ensures roundtrip_Twstat_kind: typeis(f.Message, MessageTwstat) ==> typeis(V.Message, MessageTwstat) && V.Message.(MessageTwstat).Fid == f.Message.(MessageTwstat).Fid
+//@ ensures roundtrip_Twstat_Type: typeis(f.Message, MessageTwstat) ==> V.Message.(MessageTwstat).Stat.Type == f.Message.(MessageTwstat).Stat.Type
+//@ ensures roundtrip_Twstat_Dev: typeis(f.Message, MessageTwstat) ==> V.Message.(MessageTwstat).Stat.Dev == f.Message.(MessageTwstat).Stat.Dev
+//@ ensures roundtrip_Twstat_QidType: typeis(f.Message, MessageTwstat) ==> V.Message.(MessageTwstat).Stat.Qid.Type == f.Message.(MessageTwstat).Stat.Qid.Type
+//@ ensures roundtrip_Twstat_QidVersion: typeis(f.Message, MessageTwstat) ==> V.Message.(MessageTwstat).Stat.Qid.Version == f.Message.(MessageTwstat).Stat.Qid.Version
+//@ ensures roundtrip_Twstat_QidPath: typeis(f.Message, MessageTwstat) ==> V.Message.(MessageTwstat).Stat.Qid.Path == f.Message.(MessageTwstat).Stat.Qid.Path
+//@ ensures roundtrip_Twstat_Mode: typeis(f.Message, MessageTwstat) ==> V.Message.(MessageTwstat).Stat.Mode == f.Message.(MessageTwstat).Stat.Mode
+//@ ensures roundtrip_Twstat_AccessTime: typeis(f.Message, MessageTwstat) ==> V.Message.(MessageTwstat).Stat.AccessTime == f.Message.(MessageTwstat).Stat.AccessTime
+//@ ensures roundtrip_Twstat_ModTime: typeis(f.Message, MessageTwstat) ==> V.Message.(MessageTwstat).Stat.ModTime == f.Message.(MessageTwstat).Stat.ModTime
+//@ ensures roundtrip_Twstat_Length: typeis(f.Message, MessageTwstat) ==> V.Message.(MessageTwstat).Stat.Length == f.Message.(MessageTwstat).Stat.Length
+//@ ensures roundtrip_Twstat_Name: typeis(f.Message, MessageTwstat) ==> V.Message.(MessageTwstat).Stat.Name == f.Message.(MessageTwstat).Stat.Name
+//@ ensures roundtrip_Twstat_UID: typeis(f.Message, MessageTwstat) ==> V.Message.(MessageTwstat).Stat.UID == f.Message.(MessageTwstat).Stat.UID
+//@ ensures roundtrip_Twstat_GID: typeis(f.Message, MessageTwstat) ==> V.Message.(MessageTwstat).Stat.GID == f.Message.(MessageTwstat).Stat.GID
+//@ ensures roundtrip_Twstat_MUID: typeis(f.Message, MessageTwstat) ==> V.Message.(MessageTwstat).Stat.MUID == f.Message.(MessageTwstat).Stat.MUID
+//@ ensures roundtrip_Twrite: typeis(f.Message, MessageTwrite) ==> typeis(V.Message, MessageTwrite) && V.Message.(MessageTwrite).Fid == f.Message.(MessageTwrite).Fid && V.Message.(MessageTwrite).Offset == f.Message.(MessageTwrite).Offset && bytes(V.Message.(MessageTwrite).Data) == old(bytes(f.Message.(MessageTwrite).Data))
+//@ ensures roundtrip_Rread: typeis(f.Message, MessageRread) ==> typeis(V.Message, MessageRread) && bytes(V.Message.(MessageRread).Data) == old(bytes(f.Message.(MessageRread).Data))
